@@ -17,7 +17,7 @@ def restricted_denoms(facts):
     for f in facts:
         if f[0] == 'is' and f[1][0] == 'marker_query' and f[2] == 'Ok':
             d = f[1][1]; mq, mk, tf, mt = marker_facts(d)
-            if ('is', mk, 'Some') in fs and ('is', tf, 'Ok') in fs and ('val', mt, 2) in fs: out.append(d)
+            if ('is', mk, 'Some') in fs and ('is', tf, 'Ok') in fs and (('val', mt, 2) in fs or ('val', EQ(mt, I(2)), True) in fs): out.append(d)
     return out
 
 def contradicts_restricted(f):
@@ -35,6 +35,12 @@ def contradicts_restricted(f):
         while t[0] in ('v', 'f', 'call'):
             t = t[1] if t[0] != 'call' else (t[2][0] if t[2] else ('x',))
             if t[0] == 'marker_query': return t[1]
+    if f[0] == 'val' and f[2] is False and f[1][0] == 'eq' and I(2) in f[1][1:]:
+        t = f[1][2] if f[1][1] == I(2) else f[1][1]
+        if t[0] == 'f' and t[2] == 'marker_type':
+            while t[0] in ('v', 'f', 'call'):
+                t = t[1] if t[0] != 'call' else (t[2][0] if t[2] else ('x',))
+                if t[0] == 'marker_query': return t[1]
     if f[0] == 'val' and f[1][0] == 'f' and f[1][2] == 'marker_type' and f[2] != 2:
         t = f[1]
         while t[0] in ('v', 'f', 'call'):
